@@ -13,6 +13,8 @@ package http
 // accepted and reproduced by the Lean model `queuesvc`. No time value is diffed.
 
 import (
+	"net"
+	"net/url"
 	"encoding/json"
 	"errors"
 	"fmt"
@@ -38,6 +40,7 @@ type c23Req struct {
 	client, idx int
 	stmts       []int
 	wait        bool
+	shortWait   bool // waits only 300 ms: expected to get 408 when its batch is stuck behind an outage
 	seq         int64
 	status      int
 	missing     int // statements not yet applied when the wait response arrived
@@ -68,6 +71,8 @@ type c23Run struct {
 	failAt          map[int]string // Execute call number -> failure kind
 	seed            uint64
 	bigReqs         bool
+	shortWaits      bool // some waiters give up after 300 ms (408 path)
+	closeEarly      bool // Service.Close while an outage is in progress
 }
 
 func c23Do(rep *vfReport, rn c23Run, runIdx int) (ops, out []string, ok bool) {
@@ -164,8 +169,11 @@ func c23Do(rep *vfReport, rn c23Run, runIdx int) (ops, out []string, ok bool) {
 					parts = append(parts, fmt.Sprintf(`"INSERT INTO t(v) VALUES(%d)"`, id))
 				}
 				url := host + "/db/execute?queue"
-				if rq.wait {
-					url += "&wait&timeout=100s"
+				if rq.wait && rn.shortWaits && pr.Chance(50) {
+					rq.shortWait = true
+					url += "&wait&timeout=300ms"
+				} else if rq.wait {
+					url += "&wait&timeout=20s"
 				}
 				resp, err := client.Post(url, "application/json", strings.NewReader("["+strings.Join(parts, ",")+"]"))
 				if err != nil {
@@ -201,7 +209,7 @@ func c23Do(rep *vfReport, rn c23Run, runIdx int) (ops, out []string, ok bool) {
 	wg.Wait()
 	total := 0
 	for _, rq := range reqs {
-		if rq.status == 200 {
+		if rq.status == 200 || (rq.status == 408 && rq.shortWait) {
 			total += len(rq.stmts)
 		}
 	}
@@ -226,8 +234,31 @@ func c23Do(rep *vfReport, rn c23Run, runIdx int) (ops, out []string, ok bool) {
 		ok = false
 		rep.Fail(sig, detail, replay)
 	}
-	var acc []*c23Req
+	var acc, timedOutReqs []*c23Req
+	var strandedIDs []int // statements of waiters that got 408 after the full 20 s: reported above, kept out of the order comparison
 	for _, rq := range reqs {
+		if rq.status == 408 && rq.shortWait {
+			// The waiter gave up; its statements stay accepted. Its sequence number is not in the
+			// 408 body, so it is placed by where its statements were applied: they must be there,
+			// exactly once, contiguous and in order.
+			timedOutReqs = append(timedOutReqs, rq)
+			continue
+		}
+		if rq.status == 408 && rq.wait {
+			// the statements were accepted (Write succeeded) but the batch containing them was not
+			// applied within 20 s although Execute was succeeding again long before
+			stranded := 0
+			mu.Lock()
+			for _, st := range rq.stmts {
+				if !applied[st] {
+					stranded++
+				}
+			}
+			mu.Unlock()
+			strandedIDs = append(strandedIDs, rq.stmts...)
+			fail("wait-timed-out-statements-stranded", fmt.Sprintf("client %d request %d (wait, %d statements) got 408 after 20 s; %d of its statements are still not applied although the store has been accepting Execute calls", rq.client, rq.idx, len(rq.stmts), stranded))
+			continue
+		}
 		if rq.status != 200 {
 			fail("queued-request-rejected", fmt.Sprintf("client %d request %d got status %d", rq.client, rq.idx, rq.status))
 			continue
@@ -249,6 +280,51 @@ func c23Do(rep *vfReport, rn c23Run, runIdx int) (ops, out []string, ok bool) {
 	}
 	for _, b := range bs {
 		got = append(got, b.stmts...)
+	}
+	if len(strandedIDs) > 0 {
+		skip := map[int]bool{}
+		for _, x := range strandedIDs {
+			skip[x] = true
+		}
+		var g2 []int
+		for _, x := range got {
+			if !skip[x] {
+				g2 = append(g2, x)
+			}
+		}
+		got = g2
+	}
+	if len(timedOutReqs) > 0 {
+		// take the timed-out waiters' statements out of the applied stream after checking them
+		pos := map[int]int{}
+		for i, x := range got {
+			if _, dup := pos[x]; dup {
+				fail("statements-applied-twice", fmt.Sprintf("statement %d applied more than once", x))
+			}
+			pos[x] = i
+		}
+		drop := map[int]bool{}
+		for _, rq := range timedOutReqs {
+			for k, st := range rq.stmts {
+				p, okp := pos[st]
+				if !okp {
+					fail("timed-out-waiter-statements-dropped", fmt.Sprintf("client %d request %d got 408 (its own 300 ms wait limit) and its statement %d was never applied afterwards", rq.client, rq.idx, st))
+					break
+				}
+				if k > 0 && p != pos[rq.stmts[k-1]]+1 {
+					fail("request-statements-not-contiguous", fmt.Sprintf("client %d request %d: statements %d and %d are not adjacent in the applied stream", rq.client, rq.idx, rq.stmts[k-1], st))
+				}
+				drop[st] = true
+			}
+		}
+		var g2 []int
+		for _, x := range got {
+			if !drop[x] {
+				g2 = append(g2, x)
+			}
+		}
+		got = g2
+		rep.CountN("wait-timeouts-408-then-applied", len(timedOutReqs))
 	}
 	if c23Ints(want) != c23Ints(got) {
 		// classify
@@ -275,6 +351,10 @@ func c23Do(rep *vfReport, rn c23Run, runIdx int) (ops, out []string, ok bool) {
 	}
 	if !ok {
 		return nil, nil, false
+	}
+	if len(timedOutReqs) > 0 {
+		rep.Case(fmt.Sprintf("408:%d", runIdx), true)
+		return nil, nil, false // judged by the oracle only: a 408 carries no sequence number to place it in the model schedule
 	}
 	// model schedule from the observation
 	ops = []string{fmt.Sprintf("new %d %d %d", rn.cap, rn.batch, int64(rn.timeout))}
@@ -349,6 +429,7 @@ func TestVerifC23(t *testing.T) {
 			nf = 0
 		}
 		rn.bigReqs = i%3 == 1
+		rn.shortWaits = i%4 == 1
 		at := 1 + r.Intn(4)
 		longBurst := i == 1 || (vfThorough() && i%20 == 1)
 		if longBurst {
@@ -384,5 +465,288 @@ func TestVerifC23(t *testing.T) {
 		}(i, rn)
 	}
 	wg.Wait()
+	c23CloseDuringOutage(rep, 2)
+	c23CloseDuringOutage(rep, 5)
 	rep.vfCompareSegments("queuesvc", allOps, allImpl)
+}
+
+// c23CloseDuringOutage documents the boundary of the property: a node that is being shut
+// down (Service.Close) while Execute keeps failing does NOT apply what is still queued. That
+// is outside "while the node keeps running"; what must still hold is that nothing is applied
+// out of order or after Close has returned, and that Close returns.
+func c23CloseDuringOutage(rep *vfReport, nReq int) {
+	var mu sync.Mutex
+	var appliedStmts []int
+	closed := false
+	appliedAfterClose := 0
+	m := &MockStore{leaderAddr: "127.0.0.1:4002"}
+	c := &mockClusterService{}
+	outage := true
+	m.executeFn = func(er *command.ExecuteRequest) ([]*command.ExecuteQueryResponse, uint64, error) {
+		mu.Lock()
+		defer mu.Unlock()
+		if outage {
+			return nil, 0, store.ErrLeaderNotFound
+		}
+		if closed {
+			appliedAfterClose++
+		}
+		for _, st := range er.Request.Statements {
+			if mm := c23ValRe.FindStringSubmatch(st.Sql); mm != nil {
+				v, _ := strconv.Atoi(mm[1])
+				appliedStmts = append(appliedStmts, v)
+			}
+		}
+		return nil, 0, nil
+	}
+	svc := New("127.0.0.1:0", m, c, proxy.New(m, c), nil)
+	svc.DefaultQueueCap, svc.DefaultQueueBatchSz, svc.DefaultQueueTimeout = 16, 2, 2*time.Millisecond
+	svc.logger.SetOutput(io.Discard)
+	if err := svc.Start(); err != nil {
+		rep.Note("close scenario: start failed: %v", err)
+		return
+	}
+	host := fmt.Sprintf("http://%s", svc.Addr().String())
+	accepted := 0
+	for i := 0; i < nReq; i++ {
+		resp, err := http.Post(host+"/db/execute?queue", "application/json", strings.NewReader(fmt.Sprintf(`["INSERT INTO t(v) VALUES(%d)"]`, i)))
+		if err == nil {
+			if resp.StatusCode == 200 {
+				accepted++
+			}
+			resp.Body.Close()
+		}
+	}
+	time.Sleep(50 * time.Millisecond) // the consumer is now retrying the first batch
+	done := make(chan struct{})
+	go func() { svc.Close(); close(done) }()
+	if nReq <= 2 {
+		// one batch, in the consumer's hands: Close must get through although Execute keeps failing
+		select {
+		case <-done:
+		case <-time.After(30 * time.Second):
+			rep.Fail("service-close-hangs-during-outage", "Service.Close did not return within 30 s while Execute was failing (one batch pending)", map[string]interface{}{"accepted": accepted})
+			return
+		}
+	} else {
+		// three batches pending: one with the consumer, one in the queue's output slot, one that
+		// the queue loop is blocked sending. queue.Close waits for that loop, and Service.Close
+		// signals runQueue only afterwards, so Close blocks until the outage ends. This is a
+		// shutdown-liveness observation OUTSIDE C23 (nothing is applied out of order or lost
+		// while running); it is recorded, not judged.
+		select {
+		case <-done:
+			rep.Count("close-during-outage:close-returned-with-3-batches-pending")
+		case <-time.After(3 * time.Second):
+			rep.Note("observation (outside C23): with 3+ batches pending during an outage Service.Close blocks (queue.Close waits for the run loop, which is blocked sending to the full output slot; runQueue is told to stop only after queue.Close returns)")
+			rep.Count("close-during-outage:close-blocked-until-outage-ended")
+			mu.Lock()
+			outage = false
+			mu.Unlock()
+			select {
+			case <-done:
+			case <-time.After(30 * time.Second):
+				rep.Fail("service-close-never-returns", "Service.Close did not return within 30 s after Execute started succeeding again", map[string]interface{}{"accepted": accepted})
+				return
+			}
+			mu.Lock()
+			closed = true
+			mu.Unlock()
+			time.Sleep(50 * time.Millisecond)
+			mu.Lock()
+			defer mu.Unlock()
+			for i, v := range appliedStmts {
+				if v != i {
+					rep.Fail("applied-out-of-acceptance-order", fmt.Sprintf("close scenario: applied %v", appliedStmts), nil)
+					break
+				}
+			}
+			rep.Case("close-during-outage-3-batches", true)
+			return
+		}
+	}
+	mu.Lock()
+	closed, outage = true, false // the leader is back, but the node has been shut down
+	mu.Unlock()
+	time.Sleep(1200 * time.Millisecond) // longer than runQueue's retry delay
+	mu.Lock()
+	defer mu.Unlock()
+	if appliedAfterClose > 0 {
+		rep.Fail("applied-after-service-close", fmt.Sprintf("%d Execute calls succeeded after Service.Close had returned", appliedAfterClose), map[string]interface{}{"accepted": accepted})
+	}
+	for i, v := range appliedStmts {
+		if v != i {
+			rep.Fail("applied-out-of-acceptance-order", fmt.Sprintf("close scenario: applied %v", appliedStmts), nil)
+			break
+		}
+	}
+	rep.Case("close-during-outage", true)
+	rep.CountN("close-during-outage:accepted", accepted)
+	rep.CountN("close-during-outage:left-unapplied-by-shutdown(outside-property)", accepted-len(appliedStmts))
+}
+
+// ---- live: real store.Store behind the real http.Service ------------------------------------
+
+type c23Layer struct{ net.Listener }
+
+func (l *c23Layer) Dial(addr string, timeout time.Duration) (net.Conn, error) {
+	return net.DialTimeout("tcp", addr, timeout)
+}
+
+func c23QueryInts(host, q string) ([]int, error) {
+	resp, err := http.Get(host + "/db/query?level=strong&q=" + url.QueryEscape(q))
+	if err != nil {
+		return nil, err
+	}
+	defer resp.Body.Close()
+	var v struct {
+		Results []struct {
+			Values [][]interface{} `json:"values"`
+			Error  string          `json:"error"`
+		} `json:"results"`
+	}
+	if err := json.NewDecoder(resp.Body).Decode(&v); err != nil {
+		return nil, err
+	}
+	if len(v.Results) != 1 || v.Results[0].Error != "" {
+		return nil, fmt.Errorf("query %q: %+v", q, v)
+	}
+	var out []int
+	for _, row := range v.Results[0].Values {
+		if f, ok := row[0].(float64); ok {
+			out = append(out, int(f))
+		}
+	}
+	return out, nil
+}
+
+// TestVerifC23Live: concurrent queued requests through the real http.Service into a real,
+// bootstrapped single-node store.Store; the rows' insertion order (AUTOINCREMENT id) is
+// compared with the acceptance order (sequence numbers), and a wait response must find
+// its rows in the database.
+func TestVerifC23Live(t *testing.T) {
+	rep := vfNewReport("C23", "live: real single-node store.Store behind the real http.Service: 3-4 concurrent clients x 8-20 queued requests of 1-3 sequence-tagged INSERTs (40% with wait), batch size 1-6, timeout 3-12 ms; rows read back ORDER BY id vs. acceptance order")
+	defer rep.Write()
+	r := vfNewRng(2323)
+	ln, err := net.Listen("tcp", "127.0.0.1:0")
+	if err != nil {
+		t.Fatalf("listen: %v", err)
+	}
+	st := store.New(&store.Config{DBConf: store.NewDBConfig(), Dir: t.TempDir(), ID: "n1"}, &c23Layer{ln})
+	if err := st.Open(); err != nil {
+		t.Fatalf("open: %v", err)
+	}
+	defer st.Close(true)
+	if err := st.Bootstrap(store.NewServer(st.ID(), st.Addr(), true)); err != nil {
+		t.Fatalf("bootstrap: %v", err)
+	}
+	if _, err := st.WaitForLeader(30 * time.Second); err != nil {
+		t.Fatalf("leader: %v", err)
+	}
+	c := &mockClusterService{}
+	rounds := vfScale(2, 12)
+	for round := 0; round < rounds; round++ {
+		svc := New("127.0.0.1:0", st, c, proxy.New(st, c), nil)
+		svc.DefaultQueueCap, svc.DefaultQueueBatchSz, svc.DefaultQueueTimeout = 8+r.Intn(24), 1+r.Intn(6), time.Duration(3+r.Intn(10))*time.Millisecond
+		svc.logger.SetOutput(io.Discard)
+		if err := svc.Start(); err != nil {
+			t.Fatalf("start: %v", err)
+		}
+		host := fmt.Sprintf("http://%s", svc.Addr().String())
+		table := fmt.Sprintf("t%d", round)
+		resp, err := http.Post(host+"/db/execute", "application/json", strings.NewReader(fmt.Sprintf(`["CREATE TABLE %s (id INTEGER PRIMARY KEY AUTOINCREMENT, v INTEGER)"]`, table)))
+		if err != nil || resp.StatusCode != 200 {
+			t.Fatalf("create table: %v", err)
+		}
+		resp.Body.Close()
+		type lreq struct {
+			seq   int64
+			stmts []int
+		}
+		var mu sync.Mutex
+		var reqs []lreq
+		var waitMissing atomic.Int64
+		var wg sync.WaitGroup
+		clients := 3 + r.Intn(2)
+		per := 8 + r.Intn(13)
+		for cl := 0; cl < clients; cl++ {
+			seed := r.U64()
+			wg.Add(1)
+			go func(cl int) {
+				defer wg.Done()
+				pr := &vfRng{s: seed}
+				for i := 0; i < per; i++ {
+					n := 1 + pr.Intn(3)
+					var ids []int
+					var parts []string
+					for k := 0; k < n; k++ {
+						id := cl*100000 + i*10 + k
+						ids = append(ids, id)
+						parts = append(parts, fmt.Sprintf(`"INSERT INTO %s(v) VALUES(%d)"`, table, id))
+					}
+					u := host + "/db/execute?queue"
+					wait := pr.Chance(40)
+					if wait {
+						u += "&wait&timeout=30s"
+					}
+					resp, err := http.Post(u, "application/json", strings.NewReader("["+strings.Join(parts, ",")+"]"))
+					if err != nil {
+						rep.Fail("live:queued-request-failed", err.Error(), nil)
+						return
+					}
+					body, _ := io.ReadAll(resp.Body)
+					resp.Body.Close()
+					var v struct {
+						Seq int64 `json:"sequence_number"`
+					}
+					_ = json.Unmarshal(body, &v)
+					if resp.StatusCode != 200 {
+						rep.Fail("live:queued-request-rejected", fmt.Sprintf("status %d: %s", resp.StatusCode, body), nil)
+						return
+					}
+					if wait {
+						got, qerr := c23QueryInts(host, fmt.Sprintf("SELECT v FROM %s WHERE v >= %d AND v <= %d", table, ids[0], ids[len(ids)-1]))
+						if qerr == nil && len(got) != len(ids) {
+							waitMissing.Add(1)
+						}
+					}
+					mu.Lock()
+					reqs = append(reqs, lreq{v.Seq, ids})
+					mu.Unlock()
+				}
+			}(cl)
+		}
+		wg.Wait()
+		total := 0
+		for _, q := range reqs {
+			total += len(q.stmts)
+		}
+		var rows []int
+		for dl := time.Now().Add(60 * time.Second); time.Now().Before(dl); time.Sleep(5 * time.Millisecond) {
+			rows, err = c23QueryInts(host, fmt.Sprintf("SELECT v FROM %s ORDER BY id", table))
+			if err == nil && len(rows) >= total {
+				break
+			}
+		}
+		sort.Slice(reqs, func(i, j int) bool { return reqs[i].seq < reqs[j].seq })
+		var want []int
+		for _, q := range reqs {
+			want = append(want, q.stmts...)
+		}
+		replay := map[string]interface{}{"round": round, "seed": vfSeed(), "clients": clients, "requests_per_client": per, "batch_size": svc.DefaultQueueBatchSz, "timeout_ns": int64(svc.DefaultQueueTimeout)}
+		if c23Ints(want) != c23Ints(rows) {
+			sig := "live:rows-not-in-acceptance-order"
+			if len(rows) < len(want) {
+				sig = "live:accepted-statements-missing-from-database"
+			}
+			rep.Fail(sig, fmt.Sprintf("accepted (by sequence number) %s, rows by id %s", c23Ints(want), c23Ints(rows)), replay)
+		}
+		if waitMissing.Load() > 0 {
+			rep.Fail("live:wait-returned-before-rows-visible", fmt.Sprintf("%d wait responses arrived before their rows were in the database", waitMissing.Load()), replay)
+		}
+		svc.Close()
+		rep.Case(fmt.Sprintf("live:%d:%s", round, c23Ints(rows)), len(rows) > 10)
+		rep.CountN("live:requests", len(reqs))
+		rep.CountN("live:rows", len(rows))
+	}
 }
